@@ -57,7 +57,8 @@ META["C11"] = dict(
         "exhaustively for the repaired design (2 and 3 tasks) and must find the Settings-overtaken schedule in the model of the "
         "pinned code. Every complete 2-task schedule (23k, sampled in quick) and simulated 3-task schedules are replayed on a real "
         "client Session by parking tasks at cfg-guarded scheduling points; the bytes that reach the transport are parsed "
-        "independently and Trace_WireOrder.tla decides at the wire only.",
+        "independently and Trace_WireOrder.tla decides at the wire only."
+        " Extension: Protocol.tla states the session protocol as one endpoint sees it (which frames may arrive / be submitted given everything before); TLC checks a reference client/server pair over FIFO wires against it (and that five deviations are rejected), and the rx/tx frame events of every real session in end-to-end runs through TLS (SOCKS5/HTTP front-ends, pooled sessions, keep-alive, scheme push) are validated by Trace_Protocol; clauses tagged with this property count toward the verdict, the others are reported as MODEL-DRIFT.",
    technique="TLA+ spec (WritePath.tla) + TLC exhaustive MC + every TLC schedule replayed via scheduling hooks + TLC trace validation",
    design_ref="DESIGN.md 3/C11")
 META["C09"] = dict(
@@ -91,7 +92,8 @@ META["C10"] = dict(
         "real SOCKS5 front-end and the real server against accepting, refusing and unresolvable loopback targets. "
         "Trace_Open.tla accepts a completion only if it is the request's first outcome, success only after the target listener "
         "accepted, a failure (not a timeout) when the server could not connect, 'connected' to the application only on success, "
-        "and application bytes at the target exactly once after the connect.",
+        "and application bytes at the target exactly once after the connect."
+        " Extension: Protocol.tla states the session protocol as one endpoint sees it (which frames may arrive / be submitted given everything before); TLC checks a reference client/server pair over FIFO wires against it (and that five deviations are rejected), and the rx/tx frame events of every real session in end-to-end runs through TLS (SOCKS5/HTTP front-ends, pooled sessions, keep-alive, scheme push) are validated by Trace_Protocol; clauses tagged with this property count toward the verdict, the others are reported as MODEL-DRIFT.",
    technique="TLA+ spec (Open.tla) + TLC exhaustive MC + TLC-enumerated answer orders replayed + end-to-end loopback rig + TLC trace validation",
    design_ref="DESIGN.md 3/C10")
 META["C12"] = dict(
@@ -199,7 +201,8 @@ META["C08"] = dict(
         "with the stream tables read through a cfg-guarded accessor after every quiescence point (Trace_Mux). Sending side: "
         "proxied connections through the real SOCKS5 / HTTP front-ends, Client, server and a scripted target, closing side and "
         "order and bytes in flight varied; Trace_Close.tla requires the opposite endpoint to have received exactly what was sent, "
-        "to observe end-of-stream, and the other direction to keep working.",
+        "to observe end-of-stream, and the other direction to keep working."
+        " Extension: Protocol.tla states the session protocol as one endpoint sees it (which frames may arrive / be submitted given everything before); TLC checks a reference client/server pair over FIFO wires against it (and that five deviations are rejected), and the rx/tx frame events of every real session in end-to-end runs through TLS (SOCKS5/HTTP front-ends, pooled sessions, keep-alive, scheme push) are validated by Trace_Protocol; clauses tagged with this property count toward the verdict, the others are reported as MODEL-DRIFT.",
    technique="TLA+ spec (Mux.tla close rules, liveness under fairness) + TLC MC + replayed behaviours on in-memory rigs + end-to-end close rig + TLC trace validation (two validators)",
    design_ref="DESIGN.md 3/C08")
 META["C20"] = dict(
